@@ -438,6 +438,35 @@ def Prov.checkedAdd (p : Prov) (v : Nat) : Prov × Option Bool :=
 /-- `Clone`: an independent copy; a wrapper's clone is a new wrapper with its own, free mutex -/
 def Prov.clone (p : Prov) : Option Prov := p.guard (fun s => { p with set := s, locked := false })
 
+/-! ### a delegate of `Each` that calls ANOTHER provider; consumers of a provider in graph/types.go -/
+
+inductive NestedM where
+  | remove | cadd | add | contains
+deriving DecidableEq, Repr, Inhabited
+
+def nestedApply (m : NestedM) (s : S) (v : Nat) : S :=
+  match m with
+  | .remove => del v s
+  | .cadd => ins v s
+  | .add => ins v s
+  | .contains => s
+
+/-- `x.Each(func(v){ y.M(v); return visited < k })` (`k = 0`: visit all) where `y` is a provider OTHER than `x` — a
+clone of `x`, an operand, an unrelated wrapper. The delegate runs while `x`'s mutex is held and takes `y`'s; every
+provider owns its mutex (`Clone` yields a fresh one), so the call returns unless one of the two mutexes is held
+forever. Result: the new `y`; `none` = blocks. (A delegate that calls `x` itself on a wrapper is the documented
+self-deadlock: `Props.each_self_deadlocks`.) -/
+def eachCall (x y : Prov) (k : Nat) (m : NestedM) : Option Prov :=
+  if (x.wrapped && x.locked) || (y.wrapped && y.locked) then none
+  else some { y with set := ((if k = 0 then x.set else eachPrefix x.set k)).foldl (nestedApply m) y.set }
+
+/-- `graph.DuplexToGraphIDs`: one `Each` pass, ascending -/
+def toGraphIDs (s : S) : List Nat := s
+
+/-- `toidsrace`/writer of the harness: `Add(lo+k); Remove(lo+k-8)` for `k < n` -/
+def slideWindow (s : S) (lo n : Nat) : S :=
+  (List.range n).foldl (fun acc k => let a := ins (lo + k) acc; if k ≥ 8 then del (lo + k - 8) a else a) s
+
 /-! ### commutative.go: lazy membership over several duplex providers -/
 
 /-- `DuplexCommutation.Contains`: some member with `Cardinality() > 0` contains the value -/
